@@ -59,6 +59,12 @@ CLAIMED = {
  'C20': ('Proved over R for all control points and all fuel, about generated S/D tables and a hand model of minDist tied by exact correspondence (recorded S values, call counts): S(u,v) IS the squared distance |P(u)-Q(v)|^2 for all nine kind pairs; a returned alpha is S at some point of [0,1]^2 (and the reported parameters lie in [0,1]); hence the distance is realised, >= 0, >= the true minimum and <= the maximum; '
          'the reported segments of a path pair belong to the paths; the only non-Ok outcome over R is fuel. Termination within the recursion limit and float behaviour near distance 0 are measured.',
          'translator-regenerated S and D(r,k) (memo stripped, binomials run from source) proved equal to the squared distance by field; hand model of the branch-and-bound with threaded bestAlpha, induction on fuel; brute-force reference search', '4/C20'),
+ 'C12': ('Proved on a hand model of the glue around pyclipper, tied by exact correspondence on recorded AddPath/Execute traffic: the integer polygons handed to Clipper are exactly the truncated x100 start points of the flattened, pre-split outlines with subject = receiver and clip = argument and the operation as named; in polygon mode every result path is the closed chain of all n edges of its polygon at 1/100 scale; '
+         'under the stated even-odd hypothesis on Clipper (a Section premise, spot-checked on every recorded run) the result\'s even-odd interior is the Boolean combination of the flattened inputs\' interiors; the inputs are not rebound. Clipper itself, the 2-unit flattening deviation and the two area identities are measured by the search (probe points, exact even-odd areas).',
+         'hand model of clip() incl. splitAtPoints, LUT and reconstruction; pyclipper as a Section variable with an explicit hypothesis; recording proxy for the real pyclipper; region/area search', '4/C12'),
+ 'C13': ('Proved on the same hand model: in curve mode every result segment is a fresh straight edge between consecutive Clipper vertices or a LUT value, every LUT value is a pre-split piece or its reverse, every pre-split piece is a sub-curve s(a+u(b-a)) of an input segment (C01 retrace lemmas); an empty clip gives no paths; inputs not rebound. '
+         'The distance clause is measured; the connectivity/region sentence for crossing curved outlines is violated by the code (recorded known finding) and watched by the search.',
+         'same model; provenance by induction over the reconstruction loop and the split walk; search of provenance, distance, purity and the region sentence', '4/C13'),
 }
 PENDING_REASON = 'machinery for this property is not built yet in this revision (see DESIGN section 7); it is not claimed on the strength of a search alone'
 ALL = ['C%02d' % i for i in range(1, 21)]
